@@ -302,3 +302,13 @@ func Minimize(t *testing.T, eng EngineFunc, prop, tier string, seed int64, tape 
 	trim()
 	return cur, runs, best
 }
+
+var registry = map[string]EngineFunc{}
+
+// Register adds an engine function for a property (called from init
+// functions of the per-property files so that adding a property to an engine
+// binary touches no shared file).
+func Register(prop string, f EngineFunc) { registry[prop] = f }
+
+// MainRegistered runs Main over everything registered in this binary.
+func MainRegistered(t *testing.T) { Main(t, registry) }
